@@ -77,7 +77,8 @@ AROM_POOL = ['c1ccccc1', 'Cc1ccccc1', 'c1ccc2ccccc2c1', 'Cc1cccc2ccccc12', 'c1cc
              'c1ccc2c(c1)ccc1ccccc12', 'c1ccc(cc1)c1ccccc1', 'C1=CC=CC=C1C1=CC=CC=C1', 'c1ccc2c(c1)CCC2', 'c1ccc2c(c1)CCCC2',
              'C1=CC=CCC1', 'C1=CCC=CC1', 'c1ccncc1', 'c1ccc2ncccc2c1', 'Oc1ccccc1', 'C1CCCCC1', 'c1cc2cccc3ccc4cccc1c4c32',
              'C1=CC2=CC=CC=C2C=C1', 'C1=CC=C2C=CC=CC2=C1', 'c1ccc2[nH]ccc2c1', 'O=C1C=CC(=O)C=C1', 'C1=CC=C[CH]C1', '[CH2]c1ccccc1',
-             'c1ccc2c(c1)oc1ccccc12', 'C1=CC=C(C=C1)[Pt]', 'c1ccccc1O~[Pt]']
+             'c1ccc2c(c1)oc1ccccc12', 'C1=CC=C(C=C1)[Pt]', 'c1ccccc1O~[Pt]',
+             'C1=CC=CC=CC1', 'C1=CC=CC=CC=C1', 'c1ccc2cccc2cc1', 'C1=CC=CCC=C1', 'C1=CC=CC=CC=CC=C1']
 
 
 def aromatize_tie(ctx, spellings):
